@@ -291,3 +291,4 @@ for _n in (1, 16, 17):
     _reuse_aes("C16/adapter[len=%d]" % _n, "C02/AES128Proxy=zero-padded-CBC[len=%d]" % _n)
 _reuse_aes("C16/adapter.bad-lengths", "C02/AES128Proxy.bad-lengths=>ValueError")
 _reuse("C07/Bec2File.blocks-keyed-by-kind", "C02/Bec2File.blocks-keyed-by-kind")
+_reuse("C08/decrypt.inverse", "C02/aes-block.decrypt(encrypt(key))=key")
